@@ -1,6 +1,7 @@
 package main
 
 import (
+	"os"
 	"fmt"
 	"go/ast"
 	"go/constant"
@@ -26,52 +27,50 @@ func init() {
 func runC05(c *Ctx) {
 	c.load(".", "./runtime", "./safehtml", "./generator")
 	sp := c.pkg("safehtml")
-	quotedArmsBanDelimiters(c, sp, "C05.R1")
 	info := sp.TypesInfo
+	nQuotedArms := 0
 
-	// the value sanitisers: functions stored in a map[string]func(string) string, plus the default used by the dispatcher
+	// the value sanitisers: the unexported func(string) string functions of the package that the exported value
+	// dispatcher (SanitizeCSSValue) can hand a value to — called in its body, or stored in a package-level table of
+	// functions that its body indexes or ranges over
 	sanitizers := map[string]bool{}
-	for _, nm := range sp.Types.Scope().Names() {
-		v, ok := sp.Types.Scope().Lookup(nm).(*types.Var)
-		if !ok {
-			continue
-		}
-		if mt, ok := v.Type().Underlying().(*types.Map); ok {
-			if _, isFn := mt.Elem().Underlying().(*types.Signature); isFn {
-				if m, ok := mapStringToIdent(info, pkgVarInit(sp, nm)); ok {
-					for _, fn := range m {
-						sanitizers[fn] = true
-					}
-					c.count("css_property_table_entries", len(m))
-				}
-			}
-		}
+	isSanSig := func(t types.Type) bool {
+		sig, ok := t.Underlying().(*types.Signature)
+		return ok && sig.Params().Len() == 1 && sig.Results().Len() == 1 && sig.Params().At(0).Type().String() == "string" && sig.Results().At(0).Type().String() == "string"
 	}
-	// the default: function called by the dispatcher (the function that indexes the table) when the lookup fails
-	for _, fd := range allFuncDecls(sp) {
-		indexes := false
-		ast.Inspect(fd.Body, func(n ast.Node) bool {
-			if ix, ok := n.(*ast.IndexExpr); ok {
-				if mt, ok := info.TypeOf(ix.X).Underlying().(*types.Map); ok {
-					if _, isFn := mt.Elem().Underlying().(*types.Signature); isFn {
-						indexes = true
+	if disp := findFunc(sp, "", "SanitizeCSSValue"); disp == nil {
+		c.viol("C05.R1", "anchor-lost:SanitizeCSSValue", "", "safehtml.SanitizeCSSValue (exported) not found")
+	} else {
+		var addFrom func(n ast.Node, depth int)
+		addFrom = func(n ast.Node, depth int) {
+			ast.Inspect(n, func(x ast.Node) bool {
+				id, ok := x.(*ast.Ident)
+				if !ok {
+					return true
+				}
+				switch ob := info.ObjectOf(id).(type) {
+				case *types.Func:
+					if ob.Pkg() == sp.Types && !ob.Exported() && isSanSig(ob.Type()) {
+						sanitizers[ob.Name()] = true
+					}
+				case *types.Var:
+					if ob.Pkg() == sp.Types && ob.Parent() == sp.Types.Scope() && depth < 2 {
+						if init := pkgVarInit(sp, ob.Name()); init != nil {
+							n0 := len(sanitizers)
+							addFrom(init, depth+1)
+							if _, isMap := ob.Type().Underlying().(*types.Map); isMap {
+								c.count("css_property_table_entries", len(sanitizers)-n0)
+							}
+						}
 					}
 				}
-			}
-			return true
-		})
-		if indexes {
-			if ret, ok := fd.Body.List[len(fd.Body.List)-1].(*ast.ReturnStmt); ok && len(ret.Results) == 1 {
-				if call, ok := ret.Results[0].(*ast.CallExpr); ok {
-					if id, ok := call.Fun.(*ast.Ident); ok {
-						sanitizers[id.Name] = true
-					}
-				}
-			}
+				return true
+			})
 		}
+		addFrom(disp.Body, 0)
 	}
 	if len(sanitizers) < 3 {
-		c.viol("C05.R1", "anchor-lost:value-sanitisers", "", fmt.Sprintf("only %d value sanitisers found through the per-property table", len(sanitizers)))
+		c.viol("C05.R1", "anchor-lost:value-sanitisers", "", fmt.Sprintf("only %d value sanitisers reachable from SanitizeCSSValue", len(sanitizers)))
 	}
 	regexVars := map[string]string{}
 	for _, nm := range sp.Types.Scope().Names() {
@@ -92,8 +91,10 @@ func runC05(c *Ctx) {
 			c.viol("C05.R1", sp.PkgPath+"."+name+"|declared", "", "value sanitiser "+name+" is in the table but not declared in the package")
 			continue
 		}
-		passThroughValidated(c, sp, fd, regexVars)
+		passThroughValidated(c, sp, fd, regexVars, &nQuotedArms)
 	}
+	c.check(nQuotedArms >= 1, "C05.R1", sp.PkgPath+"|quoted-pass-through-arms-analysed", "", fmt.Sprintf("%d sanitiser(s) accept quoted pieces; each bans its delimiters inside", nQuotedArms),
+		"no value sanitiser was found that passes a quoted piece through after an interior test: the rule about string delimiters decides nothing")
 	c.floor("C05.R1", 4)
 
 	// R2 ------------------------------------------------------------
@@ -239,6 +240,51 @@ func runC05(c *Ctx) {
 		c.viol("C05.R3", "anchor-lost:SanitizeStyleAttributeValues", "", "runtime.SanitizeStyleAttributeValues (exported, called by generated code) not found")
 	}
 	c.count("style_attribute_functions", len(styleFns))
+	// one written piece: accepted content; and, if it is directly followed by ':', the property-name rule
+	checkPiece := func(key, name string, pos token.Pos, ls []leaf, namePos bool) {
+		ok, why := accept(ls)
+		c.check(ok, "C05.R3", key, c.pos(pos), leavesString(ls),
+			fmt.Sprintf("%s: %s — a style attribute value must be sanitised (safehtml.SanitizeCSS / SanitizeStyleValue) or typed SafeCSS, then HTML-escaped (classified %s)", name, why, leavesString(ls)))
+		if !namePos {
+			return
+		}
+		// a write directly followed by the ':' separator is a property NAME: only the name sanitiser (or the name result
+		// of the pair sanitiser) constrains it to an identifier; the declaration-list sanitiser accepts `a:b;c`
+		nameOK, got := true, ""
+		for _, l := range ls {
+			if l.Kind != "ESCAPED" {
+				continue
+			}
+			for _, in := range l.Inner {
+				switch {
+				case in.Kind == "CONST":
+				case in.Kind == "CALL" && (strings.HasPrefix(in.Info, modPath+"/safehtml.SanitizeCSSProperty#") || strings.HasPrefix(in.Info, modPath+"/safehtml.SanitizeCSS#0")):
+				default:
+					nameOK, got = false, in.String()
+				}
+			}
+		}
+		if len(got) > 160 {
+			got = got[:160] + "…"
+		}
+		c.check(nameOK, "C05.R3", key+"|name-position", c.pos(pos), "the text before ':' is the output of the property-name sanitiser",
+			fmt.Sprintf("%s writes %s in property-name position (directly before ':'): only safehtml.SanitizeCSSProperty (or the name result of safehtml.SanitizeCSS) restricts a name to an identifier, so `color:red;background:url(x)` as a key becomes extra declarations", name, got))
+	}
+	hasOwnParam := func(ls []leaf, fnName string) bool {
+		for _, l := range flattenAll(ls) {
+			if (l.Kind == "PARAM" || l.Kind == "FPARAM") && strings.HasPrefix(strings.TrimPrefix(l.Info, "*"), fnName+"#") {
+				return true
+			}
+		}
+		return false
+	}
+	type pending struct {
+		key     string
+		leaves  []leaf
+		pos     token.Pos
+		namePos bool
+	}
+	deferredW := map[*ssa.Function][]pending{}
 	for _, fn := range ssaFuncs(c.prog, rsp) {
 		name := ssaFuncName(fn)
 		if !styleFns[fn] {
@@ -253,35 +299,57 @@ func runC05(c *Ctx) {
 			ord++
 			nw++
 			ls := f.classify(s.Operands[0])
-			ok, why := accept(ls)
-			c.check(ok, "C05.R3", fmt.Sprintf("%s|style-write#%d", name, ord), c.pos(s.Pos), leavesString(ls),
-				fmt.Sprintf("%s: %s — a style attribute value must be sanitised (safehtml.SanitizeCSS / SanitizeStyleValue) or typed SafeCSS, then HTML-escaped (classified %s)", name, why, leavesString(ls)))
-			// a write directly followed by the ':' separator is a property NAME: only the name sanitiser (or the name result
-			// of the pair sanitiser) constrains it to an identifier; the declaration-list sanitiser accepts `a:b;c`
+			namePos := false
 			if si+1 < len(sinks) && sinks[si+1].Kind == "Builder.WriteRune" && sinks[si+1].Call.Block() == s.Call.Block() && len(sinks[si+1].Operands) == 1 {
 				if k, isK := sinks[si+1].Operands[0].(*ssa.Const); isK && k.Value != nil && k.Int64() == ':' {
-					nameOK, got := true, ""
-					for _, l := range ls {
-						if l.Kind != "ESCAPED" {
+					namePos = true
+				}
+			}
+			key := fmt.Sprintf("%s|style-write#%d", name, ord)
+			// a helper that writes what it is given (its own parameters): decided at its call sites
+			if fn.Object() != nil && !fn.Object().Exported() && hasOwnParam(ls, name) {
+				deferredW[fn] = append(deferredW[fn], pending{key, ls, s.Pos, namePos})
+				continue
+			}
+			checkPiece(key, name, s.Pos, ls, namePos)
+		}
+	}
+	for round := 0; round < 3 && len(deferredW) > 0; round++ {
+		next := map[*ssa.Function][]pending{}
+		for _, fn := range ssaFuncs(c.prog, rsp) {
+			if !styleFns[fn] {
+				continue
+			}
+			name := ssaFuncName(fn)
+			nth := map[*ssa.Function]int{}
+			for _, b := range fn.Blocks {
+				for _, ins := range b.Instrs {
+					ci, ok := ins.(ssa.CallInstruction)
+					if !ok {
+						continue
+					}
+					callee := ci.Common().StaticCallee()
+					if callee == nil || len(deferredW[callee]) == 0 || callee == fn {
+						continue
+					}
+					nth[callee]++
+					for _, pd := range deferredW[callee] {
+						var sub []leaf
+						for _, l := range pd.leaves {
+							sub = append(sub, f.substParams(l, callee, ci.Common().Args, 0, map[ssa.Value]bool{})...)
+						}
+						key := fmt.Sprintf("%s|call:%s#%d|%s", name, callee.Name(), nth[callee], pd.key)
+						nw++
+						if fn.Object() != nil && !fn.Object().Exported() && hasOwnParam(sub, name) {
+							next[fn] = append(next[fn], pending{key, sub, pd.pos, pd.namePos})
 							continue
 						}
-						for _, in := range l.Inner {
-							switch {
-							case in.Kind == "CONST":
-							case in.Kind == "CALL" && (strings.HasPrefix(in.Info, modPath+"/safehtml.SanitizeCSSProperty#") || strings.HasPrefix(in.Info, modPath+"/safehtml.SanitizeCSS#0")):
-							default:
-								nameOK, got = false, in.String()
-							}
-						}
+						checkPiece(key, name, ins.Pos(), sub, pd.namePos)
 					}
-					if len(got) > 160 {
-						got = got[:160] + "…"
-					}
-					c.check(nameOK, "C05.R3", fmt.Sprintf("%s|style-write#%d|name-position", name, ord), c.pos(s.Pos), "the text before ':' is the output of the property-name sanitiser",
-						fmt.Sprintf("%s writes %s in property-name position (directly before ':'): only safehtml.SanitizeCSSProperty (or the name result of safehtml.SanitizeCSS) restricts a name to an identifier, so `color:red;background:url(x)` as a key becomes extra declarations", name, got))
 				}
 			}
 		}
+		deferredW = next
 	}
 	if nw < 8 {
 		c.viol("C05.R3", "anchor-lost:style-attribute-writes", "", fmt.Sprintf("only %d builder writes found in the style attribute code", nw))
@@ -292,7 +360,7 @@ func runC05(c *Ctx) {
 	// turns into `&#34;a;color:red;b&#34;` — a second declaration).
 	runtimeEscapes := 0
 	for _, fn := range ssaFuncs(c.prog, rsp) {
-		if !strings.Contains(strings.ToLower(fn.Name()), "style") && !strings.HasPrefix(fn.Name(), "process") && !strings.HasPrefix(fn.Name(), "handle") {
+		if !styleFns[fn] {
 			continue
 		}
 		for _, sk := range findSinks(fn) {
@@ -379,35 +447,90 @@ func runC05(c *Ctx) {
 	if fd := findFunc(sp, "", "SanitizeCSSProperty"); fd == nil {
 		c.viol("C05.R4", "anchor-lost:SanitizeCSSProperty", "", "safehtml.SanitizeCSSProperty (exported) not found")
 	} else {
-		passThroughValidated(c, sp, fd, regexVars)
+		passThroughValidated(c, sp, fd, regexVars, &nQuotedArms)
 		// rename rule id for clarity is not needed: same obligation shape
 	}
 	if fd := findFunc(sp, "", "SanitizeCSS"); fd == nil {
 		c.viol("C05.R4", "anchor-lost:safehtml.SanitizeCSS", "", "safehtml.SanitizeCSS (exported) not found")
 	} else {
-		// property = SanitizeCSSProperty(property); if property == Innocuous { return Innocuous, Innocuous }; return property, SanitizeCSSValue(property, value)
-		t := nodeText(c.fset, fd.Body)
-		good := strings.Contains(t, "SanitizeCSSProperty(") && strings.Contains(t, "== InnocuousPropertyName") && strings.Contains(t, "return InnocuousPropertyName, InnocuousPropertyValue") && strings.Contains(t, "SanitizeCSSValue(")
-		// the value is never returned raw
-		var valueParam types.Object
+		// over the paths of the function: the name returned is the constant innocuous name or SanitizeCSSProperty(name);
+		// the value returned is a constant or SanitizeCSSValue(<that sanitised name>, value); on a path that found the
+		// name innocuous, the value returned is the constant
+		den := &denum{info: info, pkg: sp.Types, inits: map[types.Object]ast.Expr{}, limit: 5000}
+		den.finish(den.run(fd.Body.List, []dstate{{env: map[types.Object]ast.Expr{}}}))
+		var prms []types.Object
 		for _, prm := range fd.Type.Params.List {
-			if len(prm.Names) > 0 {
-				valueParam = info.Defs[prm.Names[len(prm.Names)-1]]
+			for _, nm := range prm.Names {
+				prms = append(prms, info.Defs[nm])
 			}
 		}
-		raw := false
-		ast.Inspect(fd.Body, func(x ast.Node) bool {
-			if ret, ok := x.(*ast.ReturnStmt); ok {
-				for _, r := range ret.Results {
-					if id, ok := r.(*ast.Ident); ok && info.ObjectOf(id) == valueParam {
-						raw = true
+		why := ""
+		if den.undecided != "" || len(prms) != 2 {
+			c.undec("C05.R4", funcKey(sp, fd)+"|name-then-value", c.pos(fd.Pos()), "safehtml.SanitizeCSS: "+den.undecided)
+		} else {
+			isCallTo := func(e ast.Expr, name string) *ast.CallExpr {
+				call, ok := ast.Unparen(e).(*ast.CallExpr)
+				if !ok {
+					return nil
+				}
+				if fn := calleeOf(info, call); fn != nil && fn.Pkg() == sp.Types && fn.Name() == name {
+					return call
+				}
+				return nil
+			}
+			isConst := func(e ast.Expr) bool {
+				tv, ok := info.Types[ast.Unparen(e)]
+				return ok && tv.Value != nil
+			}
+			sanitisedName := func(e ast.Expr, env map[types.Object]ast.Expr) bool {
+				x := den.deref(e, env)
+				if call := isCallTo(x, "SanitizeCSSProperty"); call != nil && len(call.Args) == 1 {
+					if id, ok := ast.Unparen(call.Args[0]).(*ast.Ident); ok && info.ObjectOf(id) == prms[0] {
+						return true
+					}
+				}
+				return false
+			}
+			for _, pth := range den.paths {
+				if pth.Ret == nil || len(pth.Ret.Results) != 2 {
+					why = "a path does not return (name, value)"
+					continue
+				}
+				r0, r1 := den.deref(pth.Ret.Results[0], pth.Env), den.deref(pth.Ret.Results[1], pth.Env)
+				if !isConst(r0) && !sanitisedName(pth.Ret.Results[0], pth.Env) {
+					why = "a path returns the name " + types.ExprString(r0) + ", which is neither a constant nor SanitizeCSSProperty(<name>)"
+				}
+				valueOK := isConst(r1)
+				if call := isCallTo(r1, "SanitizeCSSValue"); call != nil && len(call.Args) == 2 {
+					if sanitisedName(call.Args[0], pth.Env) {
+						if id, ok := ast.Unparen(call.Args[1]).(*ast.Ident); ok && info.ObjectOf(id) == prms[1] {
+							valueOK = true
+						}
+					} else {
+						why = "the value is sanitised under the unsanitised name " + types.ExprString(call.Args[0]) + " (the per-property sanitiser is chosen by the name)"
+					}
+				}
+				if !valueOK && why == "" {
+					why = "a path returns the value " + types.ExprString(r1) + ", which is neither a constant nor SanitizeCSSValue(<sanitised name>, <value>)"
+				}
+				for _, pc := range pth.Conds {
+					be, ok := ast.Unparen(pc.Expr).(*ast.BinaryExpr)
+					if !ok || (be.Op != token.EQL && be.Op != token.NEQ) {
+						continue
+					}
+					for _, side := range []ast.Expr{be.X, be.Y} {
+						if id, ok := ast.Unparen(side).(*ast.Ident); ok && id.Name == "InnocuousPropertyName" {
+							innocuous := pc.Val == (be.Op == token.EQL)
+							if innocuous && !isConst(r1) {
+								why = "on the path where the name is the innocuous placeholder the value returned is " + types.ExprString(r1) + " instead of the constant placeholder"
+							}
+						}
 					}
 				}
 			}
-			return true
-		})
-		c.check(good && !raw, "C05.R4", funcKey(sp, fd)+"|name-then-value", c.pos(fd.Pos()), "the name is sanitised first; an innocuous name forces the innocuous value; the value goes through the per-property sanitiser",
-			"safehtml.SanitizeCSS no longer sanitises the name first / forces the innocuous value for an innocuous name / routes the value through SanitizeCSSValue")
+			c.check(why == "", "C05.R4", funcKey(sp, fd)+"|name-then-value", c.pos(fd.Pos()), fmt.Sprintf("%d paths: the name is sanitised first; an innocuous name forces the innocuous value; the value goes through the per-property sanitiser", len(den.paths)),
+				"safehtml.SanitizeCSS: "+why)
+		}
 	}
 
 	if c.thorough() {
@@ -429,53 +552,102 @@ func runC05(c *Ctx) {
 	if urlFn == nil {
 		c.viol("C05.R5", "anchor-lost:url-check", "", "no function in safehtml parses a URL")
 	} else {
-		var schemes []string
-		ast.Inspect(urlFn.Body, func(x ast.Node) bool {
-			if call, ok := x.(*ast.CallExpr); ok {
-				if fn := calleeOf(info, call); fn != nil && fullName(fn) == "strings.EqualFold" {
-					if s, ok := constString(info, call.Args[1]); ok {
-						schemes = append(schemes, s)
-					}
-				}
-			}
-			return true
-		})
-		sort.Strings(schemes)
-		extra := ""
-		for _, s := range schemes {
-			if s != "http" && s != "https" && s != "mailto" {
-				extra += s + " "
-			}
-		}
-		c.check(extra == "" && len(schemes) > 0, "C05.R5", funcKey(sp, urlFn)+"|schemes", c.pos(urlFn.Pos()), "schemes: "+strings.Join(schemes, ", "),
-			"the url() check accepts the scheme(s) "+extra+"outside {http, https, mailto}")
-		// shape: if u.IsAbs() { if <scheme match> { return true }; return false }; parse error → false
-		var abs *ast.IfStmt
-		for _, st := range urlFn.Body.List {
-			if is, ok := st.(*ast.IfStmt); ok && strings.HasSuffix(types.ExprString(is.Cond), ".IsAbs()") {
-				abs = is
-			}
-		}
-		good := false
-		if abs != nil && len(abs.Body.List) == 2 {
-			if inner, ok := abs.Body.List[0].(*ast.IfStmt); ok && strings.Contains(types.ExprString(inner.Cond), "EqualFold") && !strings.Contains(types.ExprString(inner.Cond), "&&") {
-				if r1, ok := inner.Body.List[0].(*ast.ReturnStmt); ok && types.ExprString(r1.Results[0]) == "true" {
-					if r2, ok := abs.Body.List[1].(*ast.ReturnStmt); ok && types.ExprString(r2.Results[0]) == "false" {
-						good = true
+		// over the paths of the check: a path returns true only if parsing succeeded and the URL is not absolute or its
+		// scheme was compared equal (EqualFold or ==) with an allowed one
+		inits := map[types.Object]ast.Expr{}
+		for _, f := range sp.Syntax {
+			for _, d := range f.Decls {
+				if gd, ok := d.(*ast.GenDecl); ok && gd.Tok == token.VAR {
+					for _, spc := range gd.Specs {
+						vs := spc.(*ast.ValueSpec)
+						for i, nm := range vs.Names {
+							if i < len(vs.Values) {
+								inits[info.Defs[nm]] = vs.Values[i]
+							}
+						}
 					}
 				}
 			}
 		}
-		errFalse := false
-		for _, st := range urlFn.Body.List {
-			if is, ok := st.(*ast.IfStmt); ok && errVarOfCond(is.Cond) != "" {
-				if r, ok := is.Body.List[0].(*ast.ReturnStmt); ok && types.ExprString(r.Results[0]) == "false" {
-					errFalse = true
+		den := &denum{info: info, pkg: sp.Types, inits: inits, limit: 5000}
+		den.finish(den.run(urlFn.Body.List, []dstate{{env: map[types.Object]ast.Expr{}}}))
+		if den.undecided != "" {
+			c.undec("C05.R5", funcKey(sp, urlFn)+"|schemes", c.pos(urlFn.Pos()), urlFn.Name.Name+" contains "+den.undecided)
+		} else {
+			schemeSet := map[string]bool{}
+			extra, why := "", ""
+			ntrue := 0
+			for _, pth := range den.paths {
+				if pth.Ret == nil || len(pth.Ret.Results) != 1 {
+					continue
+				}
+				res := types.ExprString(pth.Ret.Results[0])
+				parsedOK, notAbs, schemeOK := false, false, false
+				errTrue := false
+				for _, pc := range pth.Conds {
+					e := ast.Unparen(pc.Expr)
+					if v := errVarOfCond(e); v != "" {
+						if be, ok := e.(*ast.BinaryExpr); ok {
+							isErr := pc.Val == (be.Op == token.NEQ)
+							if isErr {
+								errTrue = true
+							} else {
+								parsedOK = true
+							}
+						}
+					}
+					if call, ok := e.(*ast.CallExpr); ok {
+						if se, ok := call.Fun.(*ast.SelectorExpr); ok && se.Sel.Name == "IsAbs" && !pc.Val {
+							notAbs = true
+						}
+						if fn := calleeOf(info, call); fn != nil && fullName(fn) == "strings.EqualFold" && len(call.Args) == 2 && pc.Val {
+							for _, pair := range [][2]ast.Expr{{call.Args[0], call.Args[1]}, {call.Args[1], call.Args[0]}} {
+								if k, isC := constString(info, pair[1]); isC && strings.HasSuffix(types.ExprString(pair[0]), ".Scheme") {
+									schemeSet[strings.ToLower(k)] = true
+									if k2 := strings.ToLower(k); k2 == "http" || k2 == "https" || k2 == "mailto" {
+										schemeOK = true
+									} else {
+										extra += k + " "
+									}
+								}
+							}
+						}
+					}
+					if be, ok := e.(*ast.BinaryExpr); ok && be.Op == token.EQL && pc.Val {
+						for _, pair := range [][2]ast.Expr{{be.X, be.Y}, {be.Y, be.X}} {
+							if k, isC := constString(info, pair[1]); isC && strings.HasSuffix(types.ExprString(pair[0]), ".Scheme") {
+								schemeSet[k] = true
+								if k == "http" || k == "https" || k == "mailto" {
+									schemeOK = true
+								} else {
+									extra += k + " "
+								}
+							}
+						}
+					}
+				}
+				if res == "true" {
+					ntrue++
+					if !parsedOK {
+						why = "a path accepts the URL without having seen url.Parse succeed"
+					} else if !notAbs && !schemeOK {
+						why = "a path accepts an absolute URL whose scheme was not matched against http, https or mailto"
+					}
+				}
+				if errTrue && res != "false" {
+					why = "an unparsable URL is not rejected"
 				}
 			}
+			var schemes []string
+			for k := range schemeSet {
+				schemes = append(schemes, k)
+			}
+			sort.Strings(schemes)
+			c.check(extra == "" && len(schemes) > 0, "C05.R5", funcKey(sp, urlFn)+"|schemes", c.pos(urlFn.Pos()), "schemes: "+strings.Join(schemes, ", "),
+				"the url() check accepts the scheme(s) "+extra+"outside {http, https, mailto}")
+			c.check(why == "" && ntrue > 0, "C05.R5", funcKey(sp, urlFn)+"|absolute-urls-need-allowed-scheme", c.pos(urlFn.Pos()), "absolute URLs pass only with an allowed scheme; unparsable URLs are rejected",
+				"the url() check: "+why)
 		}
-		c.check(good && errFalse, "C05.R5", funcKey(sp, urlFn)+"|absolute-urls-need-allowed-scheme", c.pos(urlFn.Pos()), "absolute URLs pass only with an allowed scheme; unparsable URLs are rejected",
-			"the url() check no longer rejects absolute URLs with other schemes and unparsable URLs")
 	}
 
 	// R6 ------------------------------------------------------------
@@ -624,8 +796,13 @@ func evalRuneCond(info *types.Info, e ast.Expr, rv types.Object, r rune) (bool, 
 	return false, false
 }
 
-// passThroughValidated: C05.R1 on one sanitiser function.
-func passThroughValidated(c *Ctx, p *packages.Package, fd *ast.FuncDecl, regexVars map[string]string) {
+// passThroughValidated: C05.R1 on one sanitiser function, stated over its paths. A path that returns the input (or a
+// case-folded copy) must have taken a whole-value validator atom — an anchored pattern's MatchString as true, or a
+// ContainsAny over a set with the string/token terminators as false — on the input or a view of it (slices, trims, the
+// string results of package-local helpers that only trim their argument). When the function splits its input into
+// pieces, every way through one iteration that does not reject (return a constant) must have taken such an atom on
+// the piece. The arrangement of the tests (if/else, early return, helper predicates, flags) does not matter.
+func passThroughValidated(c *Ctx, p *packages.Package, fd *ast.FuncDecl, regexVars map[string]string, nQuoted *int) {
 	info := p.TypesInfo
 	key := funcKey(p, fd)
 	if len(fd.Type.Params.List) != 1 || len(fd.Type.Params.List[0].Names) != 1 {
@@ -633,108 +810,182 @@ func passThroughValidated(c *Ctx, p *packages.Package, fd *ast.FuncDecl, regexVa
 		return
 	}
 	param := info.Defs[fd.Type.Params.List[0].Names[0]]
-	fc := newFnCFG(fd.Body, info)
-	// does the function return its parameter (or a ToLower of it) ?
-	var passReturns []*ast.ReturnStmt
-	ast.Inspect(fd.Body, func(n ast.Node) bool {
-		if ret, ok := n.(*ast.ReturnStmt); ok && len(ret.Results) == 1 {
-			r := ast.Unparen(ret.Results[0])
-			if call, ok := r.(*ast.CallExpr); ok && len(call.Args) == 1 {
-				if fn := calleeOf(info, call); fn != nil && (fullName(fn) == "strings.ToLower" || fullName(fn) == "strings.ToUpper") {
-					r = call.Args[0]
-				}
-			}
-			if id, ok := r.(*ast.Ident); ok && info.ObjectOf(id) == param {
-				passReturns = append(passReturns, ret)
+	decls := map[types.Object]*ast.FuncDecl{}
+	for _, f := range allFuncDecls(p) {
+		if f != fd {
+			decls[info.Defs[f.Name]] = f
+		}
+	}
+	// viewRoot: the variable e is a view of
+	var viewRoot func(e ast.Expr, env map[types.Object]ast.Expr, depth int) types.Object
+	trimsOnly := map[*ast.FuncDecl]int{} // helper → index of the parameter its string results are views of (-1: none)
+	var helperView func(h *ast.FuncDecl) int
+	helperView = func(h *ast.FuncDecl) int {
+		if v, ok := trimsOnly[h]; ok {
+			return v
+		}
+		trimsOnly[h] = -1
+		var prms []types.Object
+		for _, pl := range h.Type.Params.List {
+			for _, nm := range pl.Names {
+				prms = append(prms, info.Defs[nm])
 			}
 		}
-		return true
-	})
-	if len(passReturns) == 0 {
-		c.ok("C05.R1", key+"|no-pass-through", c.pos(fd.Pos()), "never returns its input unchanged")
+		hd := &denum{info: info, pkg: p.Types, inits: map[types.Object]ast.Expr{}, limit: 5000, opaqueLoops: true}
+		// loops with early returns inside: enumerate returns syntactically instead
+		idx := -2
+		ast.Inspect(h.Body, func(n ast.Node) bool {
+			ret, ok := n.(*ast.ReturnStmt)
+			if !ok || len(ret.Results) == 0 {
+				return true
+			}
+			r0 := ret.Results[0]
+			if tv, ok := info.Types[r0]; ok && tv.Value != nil {
+				return true // constant
+			}
+			root := viewRootSyntactic(info, h, r0)
+			k := -1
+			for i, po := range prms {
+				if po == root {
+					k = i
+				}
+			}
+			if k < 0 || (idx >= 0 && idx != k) {
+				idx = -1
+				return true
+			}
+			if idx == -2 {
+				idx = k
+			}
+			return true
+		})
+		_ = hd
+		if idx < 0 {
+			idx = -1
+		}
+		trimsOnly[h] = idx
+		return idx
+	}
+	viewRoot = func(e ast.Expr, env map[types.Object]ast.Expr, depth int) types.Object {
+		for i := 0; i < 24 && e != nil; i++ {
+			e = ast.Unparen(e)
+			switch x := e.(type) {
+			case *ast.Ident:
+				ob := info.ObjectOf(x)
+				if b, ok := env[ob]; ok && !refersTo(info, b, ob) {
+					e = b
+					continue
+				}
+				if b, ok := env[ob]; ok {
+					// rebinding in terms of itself (u = strings.TrimSpace(u)): still a view of the same variable, provided
+					// the expression is a view expression
+					if r := viewRootNoEnv(info, b); r == ob {
+						return ob
+					}
+				}
+				return ob
+			case *ast.SliceExpr:
+				e = x.X
+			case *ast.IndexExpr:
+				if _, isCall := ast.Unparen(x.X).(*ast.CallExpr); isCall && x.Lbrack == token.NoPos {
+					return nil // a non-first result of a call is not a view
+				}
+				return nil
+			case *ast.CallExpr:
+				if tv, ok := info.Types[x.Fun]; ok && tv.IsType() && len(x.Args) == 1 {
+					e = x.Args[0]
+					continue
+				}
+				fn := calleeOf(info, x)
+				if fn == nil {
+					return nil
+				}
+				switch fullName(fn) {
+				case "strings.TrimSpace", "strings.TrimPrefix", "strings.TrimSuffix", "strings.ToLower", "strings.ToUpper":
+					e = x.Args[0]
+					continue
+				case "strings.Trim", "strings.TrimLeft", "strings.TrimRight":
+					// a cutset trim removes ANY run of the cutset's characters at the ends: only a whitespace cutset keeps the
+					// value a faithful view (Trim(f, `"`) turns `""x` into `x` and hides the extra quote from the validator)
+					if cs, isC := constString(info, x.Args[1]); isC && strings.TrimSpace(cs) == "" {
+						e = x.Args[0]
+						continue
+					}
+					return nil
+				}
+				if h := decls[fn]; h != nil && h.Body != nil && depth < 3 {
+					if k := helperView(h); k >= 0 && k < len(x.Args) {
+						e = x.Args[k]
+						continue
+					}
+				}
+				return nil
+			default:
+				return nil
+			}
+		}
+		return nil
+	}
+	validatorOn := func(pc pathCond, env map[types.Object]ast.Expr) (types.Object, string) {
+		call, ok := ast.Unparen(pc.Expr).(*ast.CallExpr)
+		if !ok {
+			return nil, ""
+		}
+		fn := calleeOf(info, call)
+		if fn == nil {
+			return nil, ""
+		}
+		switch fullName(fn) {
+		case "regexp.(Regexp).MatchString":
+			if !pc.Val {
+				return nil, ""
+			}
+			if se, ok := call.Fun.(*ast.SelectorExpr); ok {
+				if rid, ok := se.X.(*ast.Ident); ok {
+					if _, known := regexVars[rid.Name]; known {
+						return viewRoot(call.Args[0], env, 0), "pattern " + rid.Name
+					}
+				}
+			}
+		case "strings.ContainsAny":
+			if pc.Val {
+				return nil, ""
+			}
+			if set, ok := constString(info, call.Args[1]); ok && strings.Contains(set, `"`) && strings.Contains(set, `\`) && strings.Contains(set, "\n") {
+				return viewRoot(call.Args[0], env, 0), fmt.Sprintf("ContainsAny %q", set)
+			}
+		}
+		return nil, ""
+	}
+	isPassThrough := func(e ast.Expr, env map[types.Object]ast.Expr) bool {
+		r := ast.Unparen(e)
+		if call, ok := r.(*ast.CallExpr); ok && len(call.Args) == 1 {
+			if fn := calleeOf(info, call); fn != nil && (fullName(fn) == "strings.ToLower" || fullName(fn) == "strings.ToUpper") {
+				r = ast.Unparen(call.Args[0])
+			}
+		}
+		id, ok := r.(*ast.Ident)
+		if !ok {
+			return false
+		}
+		ob := info.ObjectOf(id)
+		if ob == param {
+			return true
+		}
+		if b, ok := env[ob]; ok && !refersTo(info, b, ob) {
+			if bid, ok := ast.Unparen(b).(*ast.Ident); ok && info.ObjectOf(bid) == param {
+				return true
+			}
+		}
+		return false
+	}
+	den := &denum{info: info, pkg: p.Types, inits: map[types.Object]ast.Expr{}, limit: 20000, opaqueLoops: true, decls: decls}
+	den.finish(den.run(fd.Body.List, []dstate{{env: map[types.Object]ast.Expr{}}}))
+	if den.undecided != "" {
+		c.undec("C05.R1", key+"|paths", c.pos(fd.Pos()), fd.Name.Name+" contains "+den.undecided)
 		return
 	}
-	// validators: if statements that reject (return a constant) when a validator atom is in its bad state
-	type validator struct {
-		is   *ast.IfStmt
-		on   types.Object // variable validated
-		kind string
-	}
-	var vals []validator
-	ast.Inspect(fd.Body, func(n ast.Node) bool {
-		is, ok := n.(*ast.IfStmt)
-		if !ok || len(is.Body.List) == 0 {
-			return true
-		}
-		ret, isRet := is.Body.List[len(is.Body.List)-1].(*ast.ReturnStmt)
-		if !isRet || len(ret.Results) != 1 {
-			return true
-		}
-		if tv, ok := info.Types[ret.Results[0]]; !ok || tv.Value == nil {
-			return true // must return a constant
-		}
-		atomsRaw := boolAtomsRaw(is.Cond)
-		var atomStrs []string
-		for _, a := range atomsRaw {
-			atomStrs = append(atomStrs, canonAtom(a))
-		}
-		for _, a := range atomsRaw {
-			call, ok := a.(*ast.CallExpr)
-			if !ok {
-				continue
-			}
-			fn := calleeOf(info, call)
-			if fn == nil {
-				continue
-			}
-			var on types.Object
-			kind := ""
-			badState := false
-			switch fullName(fn) {
-			case "regexp.(Regexp).MatchString":
-				if se, ok := call.Fun.(*ast.SelectorExpr); ok {
-					if rid, ok := se.X.(*ast.Ident); ok {
-						if _, known := regexVars[rid.Name]; known {
-							on = rootVar(info, call.Args[0])
-							kind = "pattern " + rid.Name
-							badState = false // rejects when it does NOT match
-						}
-					}
-				}
-			case "strings.ContainsAny":
-				if set, ok := constString(info, call.Args[1]); ok {
-					if strings.Contains(set, `"`) && strings.Contains(set, `\`) && strings.Contains(set, "\n") {
-						on = rootVar(info, call.Args[0])
-						kind = fmt.Sprintf("ContainsAny %q", set)
-						badState = true
-					}
-				}
-			}
-			if on == nil {
-				continue
-			}
-			// rejecting position: with the atom in its bad state the condition is true whatever the others are
-			rejects := true
-			others := []string{}
-			me := canonAtom(a)
-			for _, s := range atomStrs {
-				if s != me {
-					others = append(others, s)
-				}
-			}
-			for _, asg := range assignments(others) {
-				asg[me] = badState
-				if !evalBool(is.Cond, asg) {
-					rejects = false
-				}
-			}
-			if rejects {
-				vals = append(vals, validator{is, on, kind})
-			}
-		}
-		return true
-	})
-	// pieces: range variables over strings.Split(param, …) and locals derived from them by trimming/slicing
+	// piece loops: range over strings.Split*(param, …)
 	type loopInfo struct {
 		rs    *ast.RangeStmt
 		piece types.Object
@@ -742,9 +993,21 @@ func passThroughValidated(c *Ctx, p *packages.Package, fd *ast.FuncDecl, regexVa
 	var loops []loopInfo
 	ast.Inspect(fd.Body, func(n ast.Node) bool {
 		if rs, ok := n.(*ast.RangeStmt); ok && rs.Value != nil {
-			if call, ok := rs.X.(*ast.CallExpr); ok {
-				if fn := calleeOf(info, call); fn != nil && strings.HasPrefix(fullName(fn), "strings.Split") {
-					if id, ok := call.Args[0].(*ast.Ident); ok && info.ObjectOf(id) == param {
+			x := ast.Unparen(rs.X)
+			// the split may be held in a local
+			if id, ok := x.(*ast.Ident); ok {
+				ast.Inspect(fd.Body, func(m ast.Node) bool {
+					if as, ok := m.(*ast.AssignStmt); ok && len(as.Lhs) == 1 && len(as.Rhs) == 1 {
+						if lid, ok := as.Lhs[0].(*ast.Ident); ok && info.ObjectOf(lid) == info.ObjectOf(id) {
+							x = ast.Unparen(as.Rhs[0])
+						}
+					}
+					return true
+				})
+			}
+			if call, ok := x.(*ast.CallExpr); ok && len(call.Args) >= 1 {
+				if fn := calleeOf(info, call); fn != nil && (strings.HasPrefix(fullName(fn), "strings.Split") || strings.HasPrefix(fullName(fn), "strings.Fields")) {
+					if viewRoot(call.Args[0], nil, 0) == param {
 						if vid, ok := rs.Value.(*ast.Ident); ok {
 							loops = append(loops, loopInfo{rs, info.ObjectOf(vid)})
 						}
@@ -754,88 +1017,179 @@ func passThroughValidated(c *Ctx, p *packages.Package, fd *ast.FuncDecl, regexVa
 		}
 		return true
 	})
-	derivesFrom := func(v, root types.Object) bool {
-		if v == root {
-			return true
+	npass := 0
+	for _, pth := range den.paths {
+		if pth.Ret == nil || len(pth.Ret.Results) != 1 || !isPassThrough(pth.Ret.Results[0], pth.Env) {
+			continue
 		}
-		// v assigned (anywhere in the function) from an expression whose root variable is `root`
-		res := false
-		ast.Inspect(fd.Body, func(n ast.Node) bool {
-			if as, ok := n.(*ast.AssignStmt); ok && len(as.Lhs) == len(as.Rhs) {
-				for i, l := range as.Lhs {
-					if id, ok := l.(*ast.Ident); ok && info.ObjectOf(id) == v && rootVar(info, as.Rhs[i]) == root {
-						res = true
-					}
-				}
+		npass++
+		if len(loops) > 0 {
+			continue // the pieces are decided below
+		}
+		good, kind := false, ""
+		for _, pc := range pth.Conds {
+			if on, k := validatorOn(pc, pth.Env); on == param && on != nil {
+				good, kind = true, k
 			}
-			return true
-		})
-		return res
+		}
+		var took []string
+		for _, pc := range pth.Conds {
+			took = append(took, fmt.Sprintf("%s=%v", types.ExprString(pc.Expr), pc.Val))
+		}
+		c.check(good, "C05.R1", fmt.Sprintf("%s|pass-through#%d", key, npass), c.pos(pth.Ret.Pos()), "whole-value validator taken on the way: "+kind,
+			fmt.Sprintf("%s returns its input unchanged at %s on a path that took no whole-value validator (anchored pattern match, or terminator rejection) — conditions taken: %s", fd.Name.Name, c.pos(pth.Ret.Pos()), strings.Join(took, ", ")))
 	}
-	if len(loops) == 0 {
-		// whole value: each pass-through return must be dominated by a validator on the parameter
-		for i, ret := range passReturns {
-			good, kind := false, ""
-			for _, v := range vals {
-				if derivesFrom(v.on, param) && fc.dominates(v.is, ret) {
-					good, kind = true, v.kind
-				}
-			}
-			c.check(good, "C05.R1", fmt.Sprintf("%s|pass-through#%d", key, i+1), c.pos(ret.Pos()), "dominated by whole-value validator: "+kind,
-				fmt.Sprintf("%s returns its input unchanged at %s without a whole-value validator (anchored pattern match or terminator rejection) dominating that return", fd.Name.Name, c.pos(ret.Pos())))
-		}
+	if npass == 0 {
+		c.ok("C05.R1", key+"|no-pass-through", c.pos(fd.Pos()), "never returns its input unchanged")
 		return
 	}
 	for li, lp := range loops {
-		// accept points of the piece: `continue` statements in the loop body and the end of the body
-		var accepts []ast.Node
-		directNodes(lp.rs.Body, func(n ast.Node) bool {
-			if bs, ok := n.(*ast.BranchStmt); ok && bs.Tok == token.CONTINUE {
-				// continues of inner loops do not accept the piece
-				inner := false
-				ast.Inspect(lp.rs.Body, func(m ast.Node) bool {
-					switch m := m.(type) {
-					case *ast.RangeStmt:
-						if m.Body.Pos() <= bs.Pos() && bs.End() <= m.Body.End() {
-							inner = true
-						}
-					case *ast.ForStmt:
-						if m.Body.Pos() <= bs.Pos() && bs.End() <= m.Body.End() {
-							inner = true
-						}
+		ld := &denum{info: info, pkg: p.Types, inits: map[types.Object]ast.Expr{}, limit: 20000, opaqueLoops: true, loopBody: true, decls: decls}
+		ld.finish(ld.run(lp.rs.Body.List, []dstate{{env: map[types.Object]ast.Expr{}}}))
+		if ld.undecided != "" {
+			c.undec("C05.R1", fmt.Sprintf("%s|piece-loop#%d", key, li+1), c.pos(lp.rs.Pos()), fd.Name.Name+": the loop over the pieces contains "+ld.undecided)
+			continue
+		}
+		nacc := 0
+		good, kind, badWhy := true, "", ""
+		quotedPaths, quotedBad := 0, ""
+		if os.Getenv("TEMPLVET_DEBUG") != "" {
+			for _, pth := range ld.paths {
+				var took []string
+				for _, pc := range pth.Conds {
+					took = append(took, fmt.Sprintf("%s=%v", types.ExprString(pc.Expr), pc.Val))
+				}
+				r := "fall"
+				if pth.Ret != nil {
+					r = "ret"
+				}
+				fmt.Fprintf(os.Stderr, "DEBUG %s loop path %s exit=%q [%s]\n", fd.Name.Name, r, pth.Exit, strings.Join(took, ", "))
+			}
+		}
+		for _, pth := range ld.paths {
+			if pth.Ret != nil {
+				if len(pth.Ret.Results) == 1 {
+					if tv, ok := info.Types[pth.Ret.Results[0]]; ok && tv.Value != nil {
+						continue // rejected with a constant
 					}
-					return true
-				})
-				if !inner {
-					accepts = append(accepts, bs)
+				}
+			}
+			nacc++
+			ok := false
+			for _, pc := range pth.Conds {
+				if on, k := validatorOn(pc, pth.Env); on == lp.piece && on != nil {
+					ok, kind = true, k
+				}
+			}
+			// a piece accepted as a quoted string: everything that could end the string early is banned inside it
+			if qs, banned := quotedArm(info, pth); len(qs) > 0 {
+				quotedPaths++
+				for _, q := range append(qs, `\`, "\n") {
+					if !strings.Contains(banned, q) {
+						quotedBad = fmt.Sprintf("a piece starting with one of %q is passed through as written, but the interior test bans only %q — %q may occur inside", qs, banned, q)
+					}
+				}
+			}
+			if !ok {
+				good = false
+				var took []string
+				for _, pc := range pth.Conds {
+					took = append(took, fmt.Sprintf("%s=%v", types.ExprString(pc.Expr), pc.Val))
+				}
+				how := "the end of the loop body"
+				if pth.Exit != "" {
+					how = pth.Exit
+				} else if pth.Ret != nil {
+					how = "return " + types.ExprString(pth.Ret.Results[0])
+				}
+				badWhy = fmt.Sprintf("reaches %s with [%s]", how, strings.Join(took, ", "))
+			}
+		}
+		if quotedPaths > 0 {
+			*nQuoted = *nQuoted + 1
+			c.check(quotedBad == "", "C05.R1", fmt.Sprintf("%s|quoted-arm#%d|interior-bans-its-delimiters", key, li+1), c.pos(lp.rs.Pos()), fmt.Sprintf("%d accepting path(s) through a quoted form; the accepted opening quotes, backslash and newline are banned inside", quotedPaths),
+				fmt.Sprintf("%s: %s: the value closes its own string early and the rest of it is read as CSS (`'a';}body{display:none;x:'b'` ends the declaration and the rule)", fd.Name.Name, quotedBad))
+		}
+		c.check(good && nacc > 0, "C05.R1", fmt.Sprintf("%s|piece-loop#%d|accepted-pieces-validated", key, li+1), c.pos(lp.rs.Pos()), fmt.Sprintf("%d accepting path(s) per piece, each through a whole-piece validator (%s)", nacc, kind),
+			fmt.Sprintf("%s accepts a piece of its input without a whole-piece validator on the way (%s) — only its ends or its URL grammar were tested — and then returns the input unchanged: the piece can close its string/url token and continue with arbitrary CSS", fd.Name.Name, badWhy))
+	}
+}
+
+// viewRootNoEnv: the variable e is a view of, following only view expressions (no local bindings).
+func viewRootNoEnv(info *types.Info, e ast.Expr) types.Object {
+	for i := 0; i < 16 && e != nil; i++ {
+		e = ast.Unparen(e)
+		switch x := e.(type) {
+		case *ast.Ident:
+			return info.ObjectOf(x)
+		case *ast.SliceExpr:
+			e = x.X
+		case *ast.CallExpr:
+			if tv, ok := info.Types[x.Fun]; ok && tv.IsType() && len(x.Args) == 1 {
+				e = x.Args[0]
+				continue
+			}
+			fn := calleeOf(info, x)
+			if fn == nil {
+				return nil
+			}
+			switch fullName(fn) {
+			case "strings.TrimSpace", "strings.TrimPrefix", "strings.TrimSuffix", "strings.ToLower", "strings.ToUpper":
+				e = x.Args[0]
+				continue
+			case "strings.Trim", "strings.TrimLeft", "strings.TrimRight":
+				if cs, isC := constString(info, x.Args[1]); isC && strings.TrimSpace(cs) == "" {
+					e = x.Args[0]
+					continue
+				}
+				return nil
+			}
+			return nil
+		default:
+			return nil
+		}
+	}
+	return nil
+}
+
+// viewRootSyntactic: like viewRootNoEnv, but a local variable of h that is only ever assigned views of one variable is
+// followed to that variable.
+func viewRootSyntactic(info *types.Info, h *ast.FuncDecl, e ast.Expr) types.Object {
+	root := viewRootNoEnv(info, e)
+	for i := 0; i < 8 && root != nil; i++ {
+		var next types.Object
+		consistent := true
+		assigned := false
+		ast.Inspect(h.Body, func(n ast.Node) bool {
+			as, ok := n.(*ast.AssignStmt)
+			if !ok || len(as.Lhs) != len(as.Rhs) {
+				return true
+			}
+			for j, l := range as.Lhs {
+				if id, ok := l.(*ast.Ident); ok && info.ObjectOf(id) == root {
+					assigned = true
+					r := viewRootNoEnv(info, as.Rhs[j])
+					if r == nil {
+						consistent = false
+					} else if r != root {
+						if next != nil && next != r {
+							consistent = false
+						}
+						next = r
+					}
 				}
 			}
 			return true
 		})
-		last := lp.rs.Body.List[len(lp.rs.Body.List)-1]
-		accepts = append(accepts, last)
-		for ai, ap := range accepts {
-			good, kind := false, ""
-			for _, v := range vals {
-				if !(lp.rs.Body.Pos() <= v.is.Pos() && v.is.End() <= lp.rs.Body.End()) {
-					continue
-				}
-				if !derivesFrom(v.on, lp.piece) {
-					continue
-				}
-				if v.is == ap || fc.dominates(v.is, ap) || precedesInBlock(lp.rs.Body, v.is, ap) {
-					good, kind = true, v.kind
-				}
-				// a `continue` inside the validator's own else-path: the validator if encloses nothing; handled by dominance
-			}
-			what := "end of the loop body"
-			if _, ok := ap.(*ast.BranchStmt); ok {
-				what = "continue at " + c.pos(ap.Pos())
-			}
-			c.check(good, "C05.R1", fmt.Sprintf("%s|piece-loop#%d|accept#%d", key, li+1, ai+1), c.pos(ap.Pos()), what+" dominated by whole-piece validator: "+kind,
-				fmt.Sprintf("%s accepts a piece of its input (%s) without a whole-piece validator dominating it — only its ends or its URL grammar were tested — and then returns the input unchanged: the piece can close its string/url token and continue with arbitrary CSS", fd.Name.Name, what))
+		if !assigned || next == nil {
+			return root
 		}
+		if !consistent {
+			return nil
+		}
+		root = next
 	}
+	return root
 }
 
 // rootVar: the variable an expression is a view of (slices, TrimSpace/TrimPrefix/TrimSuffix results, conversions).
@@ -1079,66 +1433,29 @@ func cssSanitiserReturns(c *Ctx, tp *packages.Package, fd *ast.FuncDecl, depth i
 	return
 }
 
-// quotedArmsBanDelimiters: C05.R1 — a sanitiser arm that passes a QUOTED value through as written accepts it only if
-// the interior contains none of the characters that end a CSS string early: each quote character the arm accepts as an
-// opening delimiter, the backslash (escapes the closing quote) and a line break (ends the string token). The accepted
-// delimiters are read from the HasPrefix tests of the arm's condition, the banned set from the ContainsAny rejection
-// inside it.
-func quotedArmsBanDelimiters(c *Ctx, sp *packages.Package, rule string) {
-	info := sp.TypesInfo
-	n := 0
-	for _, fd := range allFuncDecls(sp) {
-		ord := 0
-		ast.Inspect(fd.Body, func(x ast.Node) bool {
-			is, ok := x.(*ast.IfStmt)
-			if !ok {
-				return true
+
+// quotedArm: the opening quotes the path accepted (HasPrefix(x, `"`) / `'` taken as true) and the union of the sets its
+// ContainsAny rejections ban.
+func quotedArm(info *types.Info, pth dpath) (quotes []string, banned string) {
+	for _, pc := range pth.Conds {
+		call, ok := ast.Unparen(pc.Expr).(*ast.CallExpr)
+		if !ok || len(call.Args) != 2 {
+			continue
+		}
+		fn := calleeOf(info, call)
+		if fn == nil {
+			continue
+		}
+		switch fullName(fn) {
+		case "strings.HasPrefix":
+			if q, isC := constString(info, call.Args[1]); isC && pc.Val && (q == `"` || q == `'`) {
+				quotes = append(quotes, q)
 			}
-			var quotes []string
-			ast.Inspect(is.Cond, func(y ast.Node) bool {
-				if call, ok := y.(*ast.CallExpr); ok && len(call.Args) == 2 {
-					if fn := calleeOf(info, call); fn != nil && fullName(fn) == "strings.HasPrefix" {
-						if q, isC := constString(info, call.Args[1]); isC && (q == `"` || q == `'`) {
-							quotes = append(quotes, q)
-						}
-					}
-				}
-				return true
-			})
-			if len(quotes) == 0 {
-				return true
+		case "strings.ContainsAny":
+			if set, isC := constString(info, call.Args[1]); isC && !pc.Val {
+				banned += set
 			}
-			// the rejection inside the arm
-			banned := ""
-			found := false
-			ast.Inspect(is.Body, func(y ast.Node) bool {
-				if call, ok := y.(*ast.CallExpr); ok && len(call.Args) == 2 {
-					if fn := calleeOf(info, call); fn != nil && fullName(fn) == "strings.ContainsAny" {
-						if set, isC := constString(info, call.Args[1]); isC {
-							banned += set
-							found = true
-						}
-					}
-				}
-				return true
-			})
-			if !found {
-				return true // not a pass-through arm with an interior test (other rules cover it)
-			}
-			ord++
-			n++
-			var missing []string
-			for _, q := range append(quotes, `\`, "\n") {
-				if !strings.Contains(banned, q) {
-					missing = append(missing, fmt.Sprintf("%q", q))
-				}
-			}
-			c.check(len(missing) == 0, rule, fmt.Sprintf("%s|quoted-arm#%d|interior-bans-its-delimiters", funcKey(sp, fd), ord), c.pos(is.Pos()),
-				fmt.Sprintf("accepted opening quotes %q are all banned inside, with backslash and newline (banned set %q)", quotes, banned),
-				fmt.Sprintf("%s passes a quoted value through as written when it starts with one of %q, but the interior test bans only %q — %s may occur inside: the value closes its own string early and the rest of it is read as CSS (`'a';}body{display:none;x:'b'` ends the declaration and the rule)", fd.Name.Name, quotes, banned, strings.Join(missing, ", ")))
-			return true
-		})
+		}
 	}
-	c.count("quoted_pass_through_arms", n)
-	c.floor(rule, 1)
+	return
 }
